@@ -11,6 +11,9 @@ import (
 
 var checks = map[string]func(job *Job, r *Report){
 	"C01": C01,
+	"C02": C02,
+	"C03": C03,
+	"C18": C18,
 }
 
 // Main is the entry point of vworker.
@@ -104,6 +107,12 @@ func xspecsFor(check, tier string) []*XSpec {
 	switch check {
 	case "C01":
 		return c01Specs(tier)
+	case "C02":
+		return c02Specs(tier)
+	case "C03":
+		return gcSpecs("C03", tier, false)
+	case "C18":
+		return gcSpecs("C18", tier, true)
 	}
 	return nil
 }
